@@ -15,6 +15,7 @@ import (
 	"path/filepath"
 	"runtime"
 	"sort"
+	"strings"
 	"sync"
 	"testing"
 	"testing/synctest"
@@ -223,6 +224,158 @@ func (c *rapidChooser) choose(n int, label string) int {
 	v := uni(c.t, n, label)
 	c.log = append(c.log, v)
 	return v
+}
+
+// actionChooser: a chooser that wants to see what the available actions are ("resume:<task>:<pause point>",
+// "start-wait", "start-pub", "cancel:<task>:..", "close", "noise"); -1 = no opinion, draw as usual.
+type actionChooser interface {
+	chooseAction(descs []string) int
+}
+
+// macroChooser drives a schedule by macro steps instead of single resumes: "run task 2 until it stands at
+// notify.wait.released", "let task 1 finish", "cancel task 0", "start a waiter". A uniformly random walk over single
+// resumes practically never keeps one goroutine parked at one point while another one runs through five pause points;
+// a walk over macro steps does it all the time. Every choice still ends up as an index in the ordinary choice log, so
+// a failing schedule replays and shrinks like any other.
+type macroChooser struct {
+	rapidChooser
+	steps []macroStep
+	pos   int
+}
+
+type macroStep struct {
+	kind  string // start-wait start-pub until finish cancel close
+	task  int
+	point string
+}
+
+func (m *macroChooser) pickIdx(i int) int {
+	m.log = append(m.log, i)
+	return i
+}
+
+func (m *macroChooser) chooseAction(descs []string) int {
+	find := func(prefix string) int {
+		for i, d := range descs {
+			if d == prefix || strings.HasPrefix(d, prefix+":") {
+				return i
+			}
+		}
+		return -1
+	}
+	for m.pos < len(m.steps) {
+		st := m.steps[m.pos]
+		switch st.kind {
+		case "start-wait", "start-pub", "close":
+			m.pos++
+			if i := find(st.kind); i >= 0 {
+				return m.pickIdx(i)
+			}
+		case "cancel":
+			m.pos++
+			if i := find(fmt.Sprintf("cancel:%d", st.task)); i >= 0 {
+				return m.pickIdx(i)
+			}
+		case "until":
+			i := find(fmt.Sprintf("resume:%d", st.task))
+			if i < 0 || strings.HasSuffix(descs[i], ":"+st.point) {
+				m.pos++ // not parked at a pause point (finished, or inside select), or there already
+				continue
+			}
+			return m.pickIdx(i)
+		case "finish":
+			i := find(fmt.Sprintf("resume:%d", st.task))
+			if i < 0 {
+				m.pos++
+				continue
+			}
+			return m.pickIdx(i)
+		default:
+			m.pos++
+		}
+	}
+	return -1
+}
+
+var waitPoints = []string{"notify.wait.fast", "notify.wait.acquired", "notify.wait.probed", "notify.wait.released", "blocking.consume.after-wait"}
+var pubPoints = []string{"blocking.publish.before-notify", "notify.set.acquired", "notify.set.stored", "notify.set.broadcast"}
+
+// genMacroSteps: a structured random script. Tasks are numbered in the order they are started.
+func genMacroSteps(t *rapid.T, c *NotifyCase) []macroStep {
+	var steps []macroStep
+	var kinds []string // kind of task i
+	w, p := 0, 0
+	add := func(s macroStep) { steps = append(steps, s) }
+	randTask := func(kind string) int {
+		var ids []int
+		for i, k := range kinds {
+			if k == kind {
+				ids = append(ids, i)
+			}
+		}
+		if len(ids) == 0 {
+			return -1
+		}
+		return ids[uni(t, len(ids), "task")]
+	}
+	n := 6 + uni(t, 10, "n_macro")
+	for i := 0; i < n; i++ {
+		switch pick(t, []string{"start-wait", "start-wait", "start-pub", "start-pub", "until-w", "until-w", "until-p", "finish-w", "finish-p", "finish-p", "cancel"}, "macro") {
+		case "start-wait":
+			if w < c.W {
+				w++
+				kinds = append(kinds, "w")
+				add(macroStep{kind: "start-wait"})
+				// usually place it somewhere right away
+				if id := len(kinds) - 1; uni(t, 4, "place") > 0 {
+					if pt := pick(t, append(append([]string{}, waitPoints[:4]...), "park"), "wpoint"); pt == "park" {
+						add(macroStep{kind: "finish", task: id})
+					} else {
+						add(macroStep{kind: "until", task: id, point: pt})
+					}
+				}
+			}
+		case "start-pub":
+			if p < c.P {
+				p++
+				kinds = append(kinds, "p")
+				add(macroStep{kind: "start-pub"})
+				if id := len(kinds) - 1; uni(t, 4, "place") > 0 {
+					if pt := pick(t, append(append([]string{}, pubPoints...), "done", "done"), "ppoint"); pt == "done" {
+						add(macroStep{kind: "finish", task: id})
+					} else {
+						add(macroStep{kind: "until", task: id, point: pt})
+					}
+				}
+			}
+		case "until-w":
+			if id := randTask("w"); id >= 0 {
+				add(macroStep{kind: "until", task: id, point: pick(t, waitPoints, "wpoint")})
+			}
+		case "until-p":
+			if id := randTask("p"); id >= 0 {
+				add(macroStep{kind: "until", task: id, point: pick(t, pubPoints, "ppoint")})
+			}
+		case "finish-w":
+			if id := randTask("w"); id >= 0 {
+				add(macroStep{kind: "finish", task: id})
+			}
+		case "finish-p":
+			if id := randTask("p"); id >= 0 {
+				add(macroStep{kind: "finish", task: id})
+			}
+		case "cancel":
+			if id := randTask("w"); id >= 0 && c.Cancel {
+				add(macroStep{kind: "cancel", task: id})
+				add(macroStep{kind: "finish", task: id})
+			}
+		}
+	}
+	// everybody runs to the end (in start order), then whatever is left is drawn as usual
+	for id := range kinds {
+		add(macroStep{kind: "finish", task: id})
+	}
+	return steps
 }
 
 type listChooser struct {
@@ -553,7 +706,21 @@ func runNotifySchedule(c *NotifyCase, ch chooser, st *Stats) (viol string, inter
 		if len(acts) == 0 {
 			break
 		}
-		a := acts[ch.choose(len(acts), "action")]
+		ai := -1
+		if ac, ok := ch.(actionChooser); ok {
+			descs := make([]string, len(acts))
+			for i, x := range acts {
+				descs[i] = x.kind
+				if x.tk != nil {
+					descs[i] = fmt.Sprintf("%s:%d:%s", x.kind, x.tk.id, x.tk.at)
+				}
+			}
+			ai = ac.chooseAction(descs)
+		}
+		if ai < 0 {
+			ai = ch.choose(len(acts), "action")
+		}
+		a := acts[ai]
 		switch a.kind {
 		case "resume":
 			if a.tk.kind == "pub" && a.tk.at == "blocking.publish.before-notify" {
@@ -706,6 +873,43 @@ func TestC18(t *testing.T) {
 				t.Fatalf("%s", v)
 			}
 			st.Eval(1)
+			if interesting {
+				st.NonTrivial(mustJSON(c))
+				st.Inc("schedules_with_step_inside_waiter_window")
+				if st.WantSample() && len(c.Choices) < 60 {
+					st.Sample(c)
+				}
+			}
+		})
+	})
+}
+
+// TestC18Macro: schedules drawn as macro steps (see macroChooser): all waiters at NextOffset, no prefill.
+func TestC18Macro(t *testing.T) {
+	st := NewStats("C18")
+	defer st.Write()
+	var lastCase *NotifyCase
+	var lastMsg string
+	defer func() {
+		if t.Failed() && lastCase != nil {
+			path := WriteReplay("C18", "notify", &Violation{Oracle: "blocking", Msg: lastMsg}, lastCase)
+			fmt.Printf("%s\nVIOLATION property=C18 replay=%s\n", lastMsg, path)
+		}
+	}()
+	rapid.Check(t, func(rt *rapid.T) {
+		c := &NotifyCase{Typed: uni(rt, 4, "typed") == 3, W: 1 + uni(rt, 4, "W"), P: 1 + uni(rt, 3, "P"), Existing: pick(rt, []int{0, 0, 2}, "existing"),
+			Cancel: uni(rt, 3, "cancel") > 0, Close: uni(rt, 4, "close") == 3, MaxSteps: 160, FixedOffs: true}
+		rapid.SyncTest(rt, func(t *rapid.T) {
+			ch := &macroChooser{rapidChooser: rapidChooser{t: t}}
+			ch.steps = genMacroSteps(t, c)
+			v, interesting := runNotifySchedule(c, ch, st)
+			c.Choices = ch.log
+			if v != "" {
+				lastCase, lastMsg = c, v
+				t.Fatalf("%s", v)
+			}
+			st.Eval(1)
+			st.Inc("macro_schedules")
 			if interesting {
 				st.NonTrivial(mustJSON(c))
 				st.Inc("schedules_with_step_inside_waiter_window")
